@@ -8,6 +8,7 @@ CONSTANTS
   InitDoc = TRUE
   FeedInit = "start"
   DeliverLast = FALSE
+  EnterGate = FALSE
   PostUnderLock = TRUE
   RegisterAtomic = TRUE
 VIEW View
